@@ -54,7 +54,7 @@ def thrClauses (s : State) (t : Tid) : List (String × Bool) :=
   let e (r : Ref) := s.heap r
   let lt (r : Ref) := decide (r < s.nHeap)
   let isLookup := match th.op with | .get _ | .pick _ | .forEach => true | _ => false
-  [ ("todo", th.todo.all (fun r => lt r && (th.op != .gc || (e r).st != .loading))),
+  [ ("todo", th.todo.all (fun r => lt r && (th.op == .close || (e r).st != .loading))),
     ("pc", match th.pc with
       | .getWaitClose r true | .loadBegin r =>
         lt r && (e r).loader == some t && (e r).st == .loading && (e r).pending == none && !(e r).loadDone &&
@@ -75,26 +75,34 @@ def thrClauses (s : State) (t : Tid) : List (String × Bool) :=
       | .inClose r i | .inTry r i => lt r && (e r).closer == some t && (e r).st == .closing && (e r).value == some i
       | .trySetClosing r => lt r && (e r).st != .loading
       | .done res => res != .panic
+      | .closeCollect => th.op == .close
       | _ => true),
     -- layer C
-    ("stale_closed", th.stale.all (fun i => (s.inst i).st == .closed)),
+    ("stale_closed", th.stale.all (fun i => decide (i < s.nInst) && (s.inst i).st == .closed)),
     ("held_fresh", match holdsRef th.pc with
       | some r => (match (e r).value with | some i => !th.stale.contains i | none => true)
       | none => true),
-    ("ret_fresh", !isLookup || (match th.pc with
+    ("ret_fresh", (match th.pc with
       | .done (.val i) => !th.stale.contains i && decide (i < s.nInst) && (s.inst i).st.loaded && (s.inst i).id == th.op.id
       | .done (.objs l) => l.all (fun i => !th.stale.contains i && decide (i < s.nInst) && (s.inst i).st.loaded)
       | _ => true)),
+    ("same_target", match th.op, (match th.pc with
+        | .rmWaitLoad r | .rmSetClosing r | .rmClosingWait r _ | .inClose r _ => some r | _ => none) with
+      | .removeSame _ (some tgt), some r => (e r).value == some tgt
+      | _, _ => true),
+    ("remove_op", th.pc != .removeLookup || (match th.op with | .removeSame .. => false | _ => true)),
+    ("held_id", match holdsRef th.pc with | some r => (e r).id == th.op.id | none => true),
     ("started", th.started || th.pc == firstPc th.op) ]
 
-/-- progress of the `Close()` call that set `closed` -/
+/-- `CloseRun` for every thread whose operation is `Close()` -/
 def closeProgress (s : State) : Bool :=
-  !s.closed || (List.range s.nThr).any (fun t =>
+  (List.range s.nThr).all (fun t =>
     let th := s.thr t
-    th.op == .close && (match th.pc with
-      | .done (.errOnly none) => (refs s).all (fun r => !inMapB s r)
+    th.op != .close || (match th.pc with
+      | .done (.errOnly none) => s.closed && (refs s).all (fun r => !inMapB s r)
       | .rmWaitLoad r | .rmSetClosing r | .rmClosingWait r _ | .inClose r _ =>
-        (refs s).all (fun r' => !inMapB s r' || r' == r || th.todo.contains r')
+        s.closed && (refs s).all (fun r' => !inMapB s r' || r' == r || th.todo.contains r')
+      | .closeCollect | .done _ => true
       | _ => false))
 
 def stateClauses (s : State) : List (String × Bool) :=
